@@ -429,8 +429,9 @@ Print Assumptions text_schema_discipline.
 
 (* ExceptionWrapper(SyntaxError) around a per-type text parser would turn a non-terminating loop
    (the model's fuel marker) into a SyntaxError, so termination is stated where the marker is made:
-   the `while True` loops of Tokenizer.get_remaining and concatenate_remaining_identifiers (the only
-   loops of the per-type text parsers besides Tokenizer.get, see no_internal_tokenizer) end in every
+   the `while True` loops of Tokenizer.get_remaining and concatenate_remaining_identifiers (the
+   loops of the schema field readers besides Tokenizer.get, see no_internal_tokenizer; the SVCB
+   parameter loop is bounded by the same measure, lemma le_svcb_params_loop) end in every
    tokenizer state. *)
 Theorem text_token_loops_terminate : forall st : TokM.tstate,
   (forall max_tokens, TokM.get_remaining st max_tokens <> Internal TokM.tFuel) /\
